@@ -9,7 +9,7 @@
 #define private public
 #include "impl.h"
 #undef private
-#include "/repo/src/impl.cpp"
+#include "impl.cpp"
 using namespace manifold;
 #ifndef VF_R
 #define VF_R 2
